@@ -14,6 +14,7 @@ import PygProofs.Lemmas.DateLemmas
 import PygProofs.Lemmas.DateStrLemmas
 import PygProofs.Lemmas.DateTextLemmas
 import PygProofs.Lemmas.AmbiguityLemmas
+import PygProofs.Lemmas.SqueezeLemmas
 
 namespace Pyg.Props.C04
 open Pyg Pyg.Bump Pyg.DateParse Pyg.Gen Pyg.Greg
@@ -448,8 +449,9 @@ example : dtCs false "2000-02-29 23:59:59".toList = some (.ok (mkDate 2000 2 29 
 /-- `dt(ws ++ text ++ ws')` = `dt(text)` for any white space around a text that starts and ends with other characters -/
 theorem dt_ignores_outer_ws (uk : Bool) (ws1 ws2 mid : List Char) (c0 c1 : Char) (h1 : ∀ c ∈ ws1, isWs c = true)
     (h2 : ∀ c ∈ ws2, isWs c = true) (n0 : isWs c0 = false) (n1 : isWs c1 = false) :
-    dtStr uk (String.ofList (ws1 ++ (c0 :: (mid ++ [c1])) ++ ws2)) = dtCs uk (c0 :: (mid ++ [c1])) := by
-  unfold dtStr; rw [String.toList_ofList, strip_wrapped ws1 ws2 mid c0 c1 h1 h2 n0 n1]
+    dtStr uk (String.ofList (ws1 ++ (c0 :: (mid ++ [c1])) ++ ws2)) = dtStr uk (String.ofList (c0 :: (mid ++ [c1]))) := by
+  unfold dtStr
+  rw [String.toList_ofList, String.toList_ofList, strip_wrapped ws1 ws2 mid c0 c1 h1 h2 n0 n1, strip_id mid c0 c1 n0 n1]
 
 /-- in particular a US-written day > 12 text with blanks around it is still rejected by the UK dialect, and vice versa
 (C04-D1: on the unrepaired code these were silently swapped) -/
@@ -460,14 +462,66 @@ theorem rejects_with_outer_ws (y m d : Nat) (hm : 1 ≤ m ∧ m ≤ 12) (hd : 12
   have e : ∀ a b : Nat, pad2 a ++ s1 :: (pad2 b ++ s2 :: (pad4 y ++ []))
       = digit (a / 10) :: ([digit a, s1, digit (b / 10), digit b, s2, digit (y / 1000), digit (y / 100), digit (y / 10)] ++ [digit y]) := by
     intros; rfl
+  have sq : ∀ a b : Nat, squeeze (pad2 a ++ s1 :: (pad2 b ++ s2 :: (pad4 y ++ []))) = pad2 a ++ s1 :: (pad2 b ++ s2 :: (pad4 y ++ [])) :=
+    fun a b => squeeze_padded a b y s1 s2 h1 h2
+  have st : ∀ a b : Nat, strip (pad2 a ++ s1 :: (pad2 b ++ s2 :: (pad4 y ++ []))) = pad2 a ++ s1 :: (pad2 b ++ s2 :: (pad4 y ++ [])) := by
+    intro a b; rw [e]; exact strip_id _ _ _ (digit_not_ws _) (digit_not_ws _)
   constructor
   · rw [e, dt_ignores_outer_ws true ws1 ws2 _ _ _ w1 w2 (digit_not_ws _) (digit_not_ws _), ← e]
+    unfold dtStr; rw [String.toList_ofList, st, sq]
     exact uk_rejects_us_text y m d hm hd hy s1 s2 h1 h2
   · rw [e, dt_ignores_outer_ws false ws1 ws2 _ _ _ w1 w2 (digit_not_ws _) (digit_not_ws _), ← e]
+    unfold dtStr; rw [String.toList_ofList, st, sq]
     exact us_rejects_uk_text y m d hm hd hy s1 s2 h1 h2
 
 example : dtStr false " 13/01/2000" = some (.error .value) ∧ dtStr true "\t02/01/2000 " = some (.ok (mkDate 2000 1 2)) :=
   ⟨eq_of_isValueError (by decide +kernel), eq_of_okView (by decide +kernel)⟩
+
+/-! ### blanks around the separators (`'13 / 01 / 2000'`, C04-D3): the dialect tests see the tight text -/
+
+theorem isDateSep_of_sq (s : Char) (h : IsSqSep s) : isDateSep s = true := by
+  rcases h with rfl | rfl | rfl <;> decide
+
+/-- the reading of EVERY padded spelling `a <sep> b <sep> yyyy[ time]` is the reading of its tight form -/
+theorem dt_padded_seps (uk : Bool) (a b yy tm : List Char) (s1 s2 : Char) (l1 r1 l2 r2 : List Char) (hms us : Int)
+    (ha : IsNumeral 2 a) (hb : IsNumeral 2 b) (hy : IsNumeral 4 yy) (h1 : IsSqSep s1) (h2 : IsSqSep s2)
+    (bl1 : ∀ c ∈ l1, c = ' ') (br1 : ∀ c ∈ r1, c = ' ') (bl2 : ∀ c ∈ l2, c = ' ') (br2 : ∀ c ∈ r2, c = ' ') (ht : TimeText tm hms us) :
+    dtCs uk (squeeze (a ++ (l1 ++ s1 :: (r1 ++ (b ++ (l2 ++ s2 :: (r2 ++ (yy ++ tm))))))))
+      = dtCs uk (a ++ s1 :: (b ++ s2 :: (yy ++ tm))) := by
+  rw [squeeze_padded_seps a b yy tm s1 s2 l1 r1 l2 r2 hms us ha hb hy h1 h2 bl1 br1 bl2 br2 ht]
+
+/-- … so a UK text with blanks around its separators is the instant (day ≤ 12 included: not dateutil's month-first reading) … -/
+theorem uk_padded_seps_text (y m d : Nat) (v : Valid y m d) (hy : 32 ≤ y ∧ y < 9999) (a b yy tm : List Char) (s1 s2 : Char)
+    (l1 r1 l2 r2 : List Char) (hms us : Int)
+    (ha : IsNumeral 2 a) (hb : IsNumeral 2 b) (hyy : IsNumeral 4 yy) (hy4 : yy.length = 4)
+    (va : digitsVal a = d) (vb : digitsVal b = m) (vy : digitsVal yy = y) (h1 : IsSqSep s1) (h2 : IsSqSep s2)
+    (bl1 : ∀ c ∈ l1, c = ' ') (br1 : ∀ c ∈ r1, c = ' ') (bl2 : ∀ c ∈ l2, c = ' ') (br2 : ∀ c ∈ r2, c = ' ') (ht : TimeText tm hms us) :
+    dtCs true (squeeze (a ++ (l1 ++ s1 :: (r1 ++ (b ++ (l2 ++ s2 :: (r2 ++ (yy ++ tm))))))))
+      = some (checkRange (mkDate y m d + hms + us)) := by
+  rw [dt_padded_seps true a b yy tm s1 s2 l1 r1 l2 r2 hms us ha hb hyy h1 h2 bl1 br1 bl2 br2 ht]
+  exact uk_text_gen y m d v hy a b yy tm s1 s2 hms us ha hb hyy hy4 va vb vy (isDateSep_of_sq s1 h1) (isDateSep_of_sq s2 h2) ht
+
+/-- … and the other dialect's day > 12 text with blanks around its separators is rejected, not silently swapped -/
+theorem rejects_padded_seps (y m d : Nat) (hm : 1 ≤ m ∧ m ≤ 12) (hd : 12 < d) (a b yy tm : List Char) (s1 s2 : Char)
+    (l1 r1 l2 r2 : List Char) (hms us : Int)
+    (ha : IsNumeral 2 a) (hb : IsNumeral 2 b) (hyy : IsNumeral 4 yy) (hy4 : yy.length = 4) (vy : digitsVal yy = y)
+    (h1 : IsSqSep s1) (h2 : IsSqSep s2)
+    (bl1 : ∀ c ∈ l1, c = ' ') (br1 : ∀ c ∈ r1, c = ' ') (bl2 : ∀ c ∈ l2, c = ' ') (br2 : ∀ c ∈ r2, c = ' ') (ht : TimeText tm hms us) :
+    (digitsVal a = m → digitsVal b = d →
+      dtCs true (squeeze (a ++ (l1 ++ s1 :: (r1 ++ (b ++ (l2 ++ s2 :: (r2 ++ (yy ++ tm)))))))) = some (.error .value))
+    ∧ (digitsVal a = d → digitsVal b = m →
+      dtCs false (squeeze (a ++ (l1 ++ s1 :: (r1 ++ (b ++ (l2 ++ s2 :: (r2 ++ (yy ++ tm)))))))) = some (.error .value)) := by
+  constructor
+  · intro va vb
+    rw [dt_padded_seps true a b yy tm s1 s2 l1 r1 l2 r2 hms us ha hb hyy h1 h2 bl1 br1 bl2 br2 ht]
+    exact uk_rejects_us_text_gen y m d hm hd a b yy tm s1 s2 hms us ha hb hyy hy4 va vb vy (isDateSep_of_sq s1 h1) (isDateSep_of_sq s2 h2) ht
+  · intro va vb
+    rw [dt_padded_seps false a b yy tm s1 s2 l1 r1 l2 r2 hms us ha hb hyy h1 h2 bl1 br1 bl2 br2 ht]
+    exact us_rejects_uk_text_gen y m d hm hd a b yy tm s1 s2 hms us ha hb hyy hy4 va vb vy (isDateSep_of_sq s1 h1) (isDateSep_of_sq s2 h2) ht
+
+example : dtStr false "13 / 01 / 2000" = some (.error .value) ∧ dtStr true "01 -13-  2000 10:30" = some (.error .value)
+    ∧ dtStr true "02 / 01 / 2000" = some (.ok (mkDate 2000 1 2)) ∧ dtStr true "2  1  2000 10:30" = some (.ok (mkDate 2000 1 2 + 37800000000)) :=
+  ⟨eq_of_isValueError (by decide +kernel), eq_of_isValueError (by decide +kernel), eq_of_okView (by decide +kernel), eq_of_okView (by decide +kernel)⟩
 
 /-! ### ymd(spelling): the date of the instant -/
 
@@ -550,9 +604,11 @@ example : MatchesAmbiguity "13/1/2000 10:30".toList :=
   ⟨"13".toList, "1".toList, "2000".toList, " 10:30".toList, '/', '/', rfl, by decide, by decide, by decide, rfl, rfl⟩
 example : firstTwo "1 13 2000".toList = 1 ∧ firstTwo "13.01.2000".toList = 13 := by decide
 
-/-- the regex SOURCE the matcher was written for is the one in the code (a changed regex text breaks this theorem; what the
-matcher does is pinned to the regex semantics by `ambiguous_iff`) -/
-theorem ambiguity_regex_is_modelled : Gen.re_ambiguity = "^[0-9]{1,2}[-/ .][0-9]{1,2}[-/ .][0-9]{2,4}" := rfl
+/-- the regex SOURCE the matcher was written for is the one in the code (a changed regex text breaks this theorem).  It is the
+tight pattern of `MatchesAmbiguity` with `\s*` allowed on both sides of each separator; the model removes those blanks first
+(`squeeze`, theorems `squeeze_padded_seps`, `dt_padded_seps`, `uk_padded_seps_text`, `rejects_padded_seps`) and what the matcher does on the tight text is pinned to the
+regex semantics by `ambiguous_iff`. -/
+theorem ambiguity_regex_is_modelled : Gen.re_ambiguity = "^[0-9]{1,2}\\s*[-/ .]\\s*[0-9]{1,2}\\s*[-/ .]\\s*[0-9]{2,4}" := rfl
 
 /-! ### dt(dt2str(t)) == t -/
 
@@ -621,7 +677,7 @@ theorem dt2str_roundtrip (t : Int) (h0 : mkDate 1000 1 1 ≤ t) (h1 : t < MAXUS)
 /-- the same on strings: `dt(dt2str(t))` -/
 theorem dt2str_roundtrip_str (t : Int) (h0 : mkDate 1000 1 1 ≤ t) (h1 : t < MAXUS) (uk : Bool) :
     dtStr uk (dt2str t) = some (.ok t) := by
-  unfold dtStr dt2str; rw [String.toList_ofList, strip_dt2strCs]; exact dt2str_roundtrip t h0 h1 uk
+  unfold dtStr dt2str; rw [String.toList_ofList, strip_dt2strCs, squeeze_dt2strCs]; exact dt2str_roundtrip t h0 h1 uk
 
 -- non-vacuity: 2000-01-10T20:30:40.000050 (the docstring example of dt2str)
 example : dt2str 63083133040000050 = "2000-01-10T20:30:40.000050" ∧ mkDate 1000 1 1 ≤ 63083133040000050 ∧ (63083133040000050 : Int) < MAXUS := by
